@@ -437,6 +437,18 @@ struct SetAdapter {
           }
         }
         (void)cs.key_comp(); (void)cs.value_comp(); (void)cs.get_allocator(); (void)cs.max_size();
+        if constexpr (!kFlat) {
+          // the rest of the iterator interface: postfix increment, operator->, prefix/postfix decrement from end()
+          G.armed = false;
+          size_t n = (size_t)cs.size(), guard = 0;
+          res.reads.reserve(3 * n + 4);
+          G.armed = true;
+          for (auto it = cs.begin(); !(it == cs.end()) && guard++ <= n; it++) { G.armed = false; res.reads.push_back(Val{it->k(), it->p()}); G.armed = true; }
+          guard = 0;
+          for (auto it = cs.end(); !(it == cs.begin()) && guard++ <= n;) { --it; G.armed = false; res.reads.push_back(Val{(*it).k(), (*it).p()}); G.armed = true; }
+          guard = 0;
+          for (auto it = cs.rbegin(); !(it == cs.rend()) && guard++ <= n;) { auto cur = it++; G.armed = false; res.reads.push_back(Val{cur->k(), cur->p()}); G.armed = true; }
+        }
       } break;
       case S_FROM_VECTOR: case S_ASSIGN_VECTOR: case S_STEAL_VECTOR: case S_RESERVE: case S_SHRINK:
         vector_ops(s, self, op, res);
